@@ -361,6 +361,17 @@ def _build_cp_atom_payload(sequence, restrict, payload_form=False, interner=None
             return ()
         return (f(i[0].key, i[0].neg, i[0].pos),)
 
+    # -* and -FOO_* act on whatever the earlier chunks enabled rather than on a
+    # single flag, so no chunk can be folded or moved across one; collapse each
+    # side of such a chunk on its own.
+    for idx in range(len(i) - 1, -1, -1):
+        if any(n == "*" or n.endswith("_*") for n in i[idx].neg):
+            return (
+                _build_cp_atom_payload(i[:idx], restrict, payload_form, interner)
+                + (f(i[idx].key, i[idx].neg, i[idx].pos),)
+                + _build_cp_atom_payload(i[idx + 1 :], restrict, payload_form, interner)
+            )
+
     i = reversed(i)
 
     for data in i:
